@@ -205,9 +205,9 @@ def control(ctx):
 
 def run(ctx):
     state = {}
-    r20_1(ctx)
-    r20_2(ctx, state)
-    r20_3(ctx, state)
-    control(ctx)
+    ctx.step(r20_1, ctx)
+    ctx.step(r20_2, ctx, state)
+    ctx.step(r20_3, ctx, state)
+    ctx.step(control, ctx)
     ctx.notes.append({'assumed_total_callees': sorted(state.get('assumed_total', [])), 'opaque_user_calls': sorted(state.get('opaque', [])),
                       'derived_invariant': 'checksum stored => len(data.as_ref()) >= %s' % state.get('K')})
